@@ -22,6 +22,7 @@ THEOREMS = [
     'C12.visible_text_plain', 'C12.flags_ok', 'C12.coherent_nocolour', 'C12.ircWrap_nocolour', 'C12.fits_512_nocolour',
     'C12.visible_text_counterexample', 'C12.chunk_count_partial', 'C12.chunk_count_counterexample',
     'C12.colour_ok', 'C12.coherent_clean', 'C12.ircWrap_fits_clean', 'C12.fits_512_clean',
+    'C12.visible_text_clean',
 ]
 TRUSTED = ['Lean 4.33.0 kernel; axioms ⊆ {propext, Classical.choice, Quot.sound}',
            'harness/extractors/reply.py (constants of splitBytes, FormatContext, FormatParser, reply, _makeReply → Gen/Reply.lean)',
@@ -102,6 +103,10 @@ def _classify_wrap(I, s, length):
     if size < 4:
         return out
     lines = I.utils.str.byteTextWrap(s, size)
+    # theorems visible_text_clean / fits_512_clean: when no line after the first begins with a digit or a
+    # comma the property is PROVED for the model — no finding class may excuse a failure there
+    if all(l and l[0] not in '0123456789,' for l in lines[1:]):
+        return out
     text = ''.join(lines)
     spans = [(m.start(), m.end()) for m in _colour_span_re.finditer(text)]
     # the bot's own parser reads any number of digits
